@@ -19,8 +19,8 @@ from ..engine import digest
 
 HISTORY_SWEEP = True
 ID = "C08"
-MASS = {"charm": 1.51, "bottom": 4.92}
-IHQ = {"charm": 4, "bottom": 5}
+MASS = {"charm": 1.51, "bottom": 4.92, "top": 172.5}
+IHQ = {"charm": 4, "bottom": 5, "top": 6}
 PDFS = [(0.5, 2.0, 1.5), (-0.1, 4.0, 0.0), (0.9, 1.5, 3.0)]
 
 RULE = (
@@ -30,6 +30,7 @@ RULE = (
 )
 ASSUMPTIONS = [
     "grid G9; masses 1.51 (charm) and 4.92 (bottom); NfFF = 3 for both flavours (bottom is then not the first flavour above the light ones) and NfFF = 4 for bottom",
+    "the O(a_s^2) heavy-quark-loop ('missing') contribution to the light-coupling structure functions is observed through F2_light / FL_light (NC, EM) with NfFF = 5, where the top quark is the only massive flavour, on a ladder in Q2/mt2 (NC F3 is not in the property's quantifier)",
     "projectiles: the canonical one per process for the main lattice; a sub-lattice with positron / antineutrino / charged-lepton CC / neutrino NC and a polarised positron beam (heavy-quark-initiated weights depend on the projectile)",
     "g1 only to O(a_s): LeProHQ raises an explicit ValueError for the high-virtuality limit of x2g1 at O(a_s^2)",
     "differences are discounted by 10x the reported quadrature errors (the massive intrinsic kernels lose accuracy at Q2/m2 >= 1e6: reported error 7e-6 at 1e6, NaN at 1e8, outside the ladder)",
@@ -84,8 +85,8 @@ class _P:
         return n * x**a * (1 - x) ** b * (1 + c * x) if x < 1 else 0.0
 
 
-def _v(st, what, msg):
-    fp = dict(st, cls=what)
+def _v(st, what, msg, **kw):
+    fp = dict(st, cls=what, **kw)
     return {"fp": fp, "fpkey": {"cls": what, "hq": st["hq"], "nfff": st["nfff"], "kind": st["kind"], "process": st["process"], "obs": st["obs"]}, "msg": msg}
 
 
@@ -111,9 +112,18 @@ def _states_proj(seed):
     return out
 
 
+def _states_missing(seed):
+    """heavy-quark loops in the light-quark-coupling structure functions (the O(a_s^2) 'missing' channel): observable *_light with NfFF = 5, so that the top quark is
+    the only massive flavour and the ladder in Q2/mt2 isolates one heavy-quark contribution; every light-quark row must reach its asymptotic counterpart."""
+    out = []
+    for k, p, x in itertools.product(["F2", "FL"], ["EM", "NC"], [1e-2, 0.1, 0.6]):
+        out.append({"hq": "top", "nfff": 5, "kind": k, "process": p, "obs": "light", "pto": 2, "x": x})
+    return out
+
+
 def states(tier, seed):
     """quick = the full base lattice; thorough = base lattice + the deep extension."""
-    base = _states_base("thorough", seed) + _states_evol(seed) + _states_proj(seed)
+    base = _states_base("thorough", seed) + _states_evol(seed) + _states_proj(seed) + _states_missing(seed)
     if tier == "quick":
         return base
     seen = {digest(s) for s in base}
@@ -133,7 +143,7 @@ def execute(st):
     yrun.reset_memos()
     m = MASS[st["hq"]]
     ihq = IHQ[st["hq"]]
-    h = st["hq"] if st["obs"] == "h" else "total"
+    h = st["hq"] if st["obs"] == "h" else st["obs"]  # "light": the heavy-quark-loop ("missing") contribution to the light-quark-coupling structure function
     name = cards.obsname(st["kind"], h)
     g = cards.GRIDS["G9"][0]
     runs = {}
@@ -189,11 +199,11 @@ def execute(st):
                 info["decay"] = max(info.get("decay", 0.0), dec)
                 if env > 3.0:
                     i = int(np.argmax([abs(D[i]) / (Smax * (1 + math.log(r)) ** 3 / r) for i, r in enumerate(LADDER)]))
-                    viol.append(_v(st, "envelope", f"{desc}: |FFNS-FFN0| = {abs(D[i]):.3e} at Q2/m2={LADDER[i]:.0e} exceeds 3 S (1+ln r)^3/r (S={Smax:.3e}); ladder {['%.2e' % d for d in D]}"))
+                    viol.append(_v(st, "envelope", f"{desc}: |FFNS-FFN0| = {abs(D[i]):.3e} at Q2/m2={LADDER[i]:.0e} exceeds 3 S (1+ln r)^3/r (S={Smax:.3e}); ladder {['%.2e' % d for d in D]}", order=o, rows=gname))
                 if abs(D[3]) > 3e-2 * Smax or abs(D[4]) > 3e-3 * Smax:
-                    viol.append(_v(st, "not-small", f"{desc}: FFNS-FFN0 does not vanish at high virtuality: {abs(D[3])/Smax:.2e} S at 1e5, {abs(D[4])/Smax:.2e} S at 1e6; ladder {['%.2e' % d for d in D]} (S={Smax:.3e})"))
+                    viol.append(_v(st, "not-small", f"{desc}: FFNS-FFN0 does not vanish at high virtuality: {abs(D[3])/Smax:.2e} S at 1e5, {abs(D[4])/Smax:.2e} S at 1e6; ladder {['%.2e' % d for d in D]} (S={Smax:.3e})", order=o, rows=gname))
                 if dec > 0.2:
-                    viol.append(_v(st, "no-decay", f"{desc}: FFNS-FFN0 does not fall by a factor 5 over two decades in either window: 1e3 -> 1e5: {abs(D[1]):.3e} -> {abs(D[3]):.3e}; 1.1e4 -> 1e6: {abs(D[2]):.3e} -> {abs(D[4]):.3e} (S={Smax:.3e})"))
+                    viol.append(_v(st, "no-decay", f"{desc}: FFNS-FFN0 does not fall by a factor 5 over two decades in either window: 1e3 -> 1e5: {abs(D[1]):.3e} -> {abs(D[3]):.3e}; 1.1e4 -> 1e6: {abs(D[2]):.3e} -> {abs(D[4]):.3e} (S={Smax:.3e})", order=o, rows=gname))
     seen, uv = set(), []
     for v_ in viol:
         if v_["fpkey"]["cls"] not in seen:
